@@ -284,13 +284,18 @@ fn real_tftopl(bytes: &[u8]) -> Result<String, String> {
     }
 }
 
-/// `pltotf`'s conversion step, with every warning rendered.
-fn real_pltotf(text: &str) -> (Vec<u8>, usize) {
+/// `pltotf`'s conversion step; every warning is then rendered the way the binary prints it
+/// (separately caught, so that a panic while printing does not hide the bytes from the
+/// remaining checks). Returns the bytes, the number of warnings and the first message panic.
+fn real_pltotf(text: &str) -> (Vec<u8>, usize, Option<String>) {
     let (bytes, warnings) = tfm::algorithms::pl_to_tfm(text);
+    let mut msg_panic = None;
     for w in &warnings {
-        let _ = w.pltotf_message(text);
+        if let Err(p) = caught(|| w.pltotf_message(text)) {
+            msg_panic.get_or_insert(p);
+        }
     }
-    (bytes, warnings.len())
+    (bytes, warnings.len(), msg_panic)
 }
 
 struct Clamp {
@@ -706,7 +711,17 @@ impl C10 {
 
     fn check_text(&mut self, text: &str, drv: &mut Driver, out: &mut CaseOutcome, stage: &str) {
         let (bytes, n_warn) = match caught(|| real_pltotf(text)) {
-            Ok(r) => r,
+            Ok((b, n, None)) => (b, n),
+            Ok((b, n, Some(p))) => {
+                out.tag(format!("{stage}pltotf:panic-in-message"));
+                out.fail(
+                    Kind::ImplPanic,
+                    &format!("{stage}pltotf"),
+                    format!("panic {}", strip_msg(&p)),
+                    format!("pltotf_message panicked after pl_to_tfm returned {} bytes: {p}", b.len()),
+                );
+                (b, n)
+            }
             Err(p) => {
                 out.tag(format!("{stage}pltotf:panic"));
                 out.fail(
@@ -968,6 +983,15 @@ impl Property for C10 {
         v.push("pt (".into());
         v.push("pt )".into());
         v.push("pt (HEADER D 300 O 1)(HEADER D 17 O 1)(HEADER D 18 O 1)(HEADER D 255 O 1)".into());
+        // C10-j: sixteen distinct heights force `compress`; its FixWord sums/differences overflow
+        for big in [["1900.0", "2000.0"], ["-1500.0", "1500.0"]] {
+            let mut t = String::from("(CHECKSUM O 1)");
+            for i in 1..=16 {
+                let h = if i <= 14 { format!("{i}.0") } else { big[i - 15].to_string() };
+                t.push_str(&format!("(CHARACTER D {i} (CHARWD R 1.0)(CHARHT R {h}))"));
+            }
+            v.push(format!("pt {t}"));
+        }
         // nesting depth: in process up to NEST_LIMIT, in a child process beyond
         v.push("pn 1000 ".into());
         v.push("pn 20000 (CHARACTER C A ".into());
